@@ -856,6 +856,63 @@ fn c07_over_on_entry(acc: &mut Acc) {
     }
 }
 
+/// C07 companion: the clock lands EXACTLY on the total duration, for every combination of repeat (None, Times 0..3),
+/// reverse and delay, delivered in one step, in two halves and in quarter-second frames. At that instant completion
+/// is reported and the values are the terminal values (100%, or the original 0% keyframe for reversing timelines),
+/// and they no longer move.
+fn c07_exact_landing(acc: &mut Acc) {
+    let idle = TlSpec { kfs: vec![kf(0.0, Some(-64.0), None, None, None), kf(1.0, Some(96.0), None, None, None)], default_easing: 0, timing: Timing::new(1.0, 0.0, Rep::None, false) };
+    let mut ci = 0u64;
+    for rep in [Rep::None, Rep::Times(0), Rep::Times(1), Rep::Times(2), Rep::Times(3)] {
+        for reverse in [false, true] {
+            for delay in [0.0f32, 0.25, 1.0] {
+                for cycle in [0.5f32, 4.0] {
+                    ci += 1;
+                    let tm = Timing::new(cycle, delay, rep, reverse);
+                    let x = TlSpec { kfs: vec![kf(0.0, Some(40.0), Some(-40), None, None), kf(0.5, Some(90.0), Some(500), None, None), kf(1.0, Some(120.0), Some(80), None, None)], default_easing: 0, timing: tm };
+                    let total = tm.total().unwrap() as f32;
+                    let (ta, tk) = if reverse { (40.0f32, -40) } else { (120.0f32, 80) };
+                    let quarters = (total / 0.25) as usize;
+                    let deliveries: Vec<Vec<f32>> = vec![vec![total], vec![total / 2.0, total / 2.0], vec![0.25; quarters], std::iter::once(total - 0.25).chain(std::iter::once(0.25)).collect()];
+                    for (di, steps) in deliveries.iter().enumerate() {
+                        // start in X (entered at construction) and, second variant, enter X by set_state from an idle state
+                        for via_set in [false, true] {
+                            let mut a = StateAnimatorBuilder::<S4, PTimeline>::new().from_state(if via_set { S4::Y } else { S4::X }).from_values(P { a: 40.0, k: -40, ..initial_values() }).on(S4::X, x.builder()).on(S4::Y, idle.builder()).build();
+                            let mut h: Vec<String> = vec![];
+                            if via_set {
+                                a.set_state(&S4::X);
+                                h.push("set_state(X)".into());
+                            }
+                            for d in steps {
+                                a.advance(*d);
+                                h.push(format!("advance({d:?})"));
+                            }
+                            acc.histories += 1;
+                            for (after, extra) in [0.0f32, 0.0, 0.25, 8.0].iter().enumerate() {
+                                if after > 0 {
+                                    a.advance(*extra);
+                                    h.push(format!("advance({extra:?})"));
+                                }
+                                acc.ops += 1;
+                                acc.checks += 1;
+                                acc.nontrivial += 1;
+                                let v = a.current_values();
+                                let bad = if !a.is_ended() { Some("not-reported") } else if v.a.to_bits() != ta.to_bits() || v.k != tk { Some(if after == 0 { "values-not-terminal-at-the-end-instant" } else { "values-not-terminal-afterwards" }) } else { None };
+                                if let Some(what) = bad {
+                                    acc.sink.add(&format!("exact-landing:{what}"), (1u64 << 53) | ci << 16 | (di as u64) << 8 | (via_set as u64) << 4 | after as u64, || {
+                                        (format!("X = cycle {cycle} s, delay {delay} s, {rep:?}, reverse {reverse} (total {total} s); after [{}]: is_ended={} values {:?}, terminal values a={ta} k={tk}", h.join("; "), a.is_ended(), v), json!({"companion": "exact-landing", "X": x.to_json(), "history": h}))
+                                    });
+                                    break;
+                                }
+                            }
+                        }
+                    }
+                }
+            }
+        }
+    }
+}
+
 /// C06 companion with astronomically long (but finite, exactly representable) steps: a 2^36 s timeline; one
 /// advance(2^35) against two advance(2^34), one advance(2^36) against two advance(2^35), ... up to steps of 2^63,
 /// 2^64, 2^65, 2^100 s and f32::MAX (the Duration clock saturates), also with zero-length advances in between - values, is_ended and the clock must agree exactly.
@@ -1449,6 +1506,7 @@ fn companions(prop: Prop, thorough: bool, acc: &mut Acc) {
         c07_nondyadic(acc);
         c07_long_run(acc);
         c07_over_on_entry(acc);
+        c07_exact_landing(acc);
     }
     if prop == Prop::C06 {
         c06_tiny_steps(acc);
